@@ -80,8 +80,10 @@ EXCL_MODEL = ("rapid state machine over bigbuff.Exclusive in a synctest bubble: 
 
 
 def exclstep(prof, quick, thorough):
+    # Exclusive never blocks while holding a lock, so a wedged case (driver or work function stuck behind a library
+    # mutex) is itself a violation: calls not answered / keys not independent
     return {"name": "exclstep", "test": "TestExclStep", "steps": 40, "checks": {"quick": quick, "thorough": thorough},
-            "shards": {"quick": 8, "thorough": 16}, "env": {"VKIT_PROFILE": prof}}
+            "shards": {"quick": 8, "thorough": 16}, "env": {"VKIT_PROFILE": prof}, "stall_sig": prof + "/stall"}
 
 
 CONFIG = {
